@@ -1,5 +1,6 @@
 import YaqsModel.Basic.Parse
 import YaqsModel.Model.Mps
+import YaqsModel.Model.MpsBonds
 /-!
   line protocol for the MPS gauge moves (C10).  Tokens:
     tensor  := d l r  followed by d*l*r pairs `re im` (C order: s, l, r)
@@ -18,6 +19,9 @@ import YaqsModel.Model.Mps
     canon abits bbits            → list returned by `check_canonical_form` for these truth tables
     canonT N T…                  → same, truth tables computed exactly from rational tensors
     trace shiftR|shiftL len i dec | setcanon len c dec | normalize len form dec | truncate len c
+    bonds truncate len c | bonds setcanon len c dec
+                                 → physical bonds touched by the two-site primitives, in call order (flips replayed)
+    iso T                        → exact left / right isometry tests of one (rational) tensor: two bits
 -/
 open Yaqs Yaqs.Mps
 
@@ -185,6 +189,18 @@ def handleQ (sc : Rat) (ws : List String) : String :=
     match len.toNat?, c.toNat? with
     | some l, some c => if c < l then showEvs (truncateEv l c) else "bad-op"
     | _, _ => "bad-op"
+  | ["bonds", "truncate", len, c] =>
+    match len.toNat?, c.toNat? with
+    | some l, some c => if c < l then showNats (truncateBonds l c) else "bad-op"
+    | _, _ => "bad-op"
+  | ["bonds", "setcanon", len, c, dec] =>
+    match len.toNat?, c.toNat? with
+    | some l, some c => if c < l ∧ (dec = "QR" ∨ dec = "SVD") then showNats (setCanonBonds l c dec) else "bad-op"
+    | _, _ => "bad-op"
+  | "iso" :: rest =>
+    match run (do let a ← pTensor; pEnd; pure a) rest with
+    | some a => (if isLeftIso a then "1" else "0") ++ (if isRightIso a then "1" else "0")
+    | none => "bad-op"
   | _ => "bad-op"
 
 def handle (line : String) : String :=
